@@ -54,6 +54,7 @@ func Run(o *drv.Out) {
 		failedTxCase(o, ci, nHeights)
 	}
 	slashThenFailCase(o)
+	paramCacheCases(o)
 	nRej := 3
 	if o.Tier == "thorough" || o.Search {
 		nRej = 8
@@ -484,6 +485,136 @@ func slashThenFailCase(o *drv.Out) {
 	}
 	o.Nontrivial(o.CurCase())
 	o.Sample(fmt.Sprintf("%s: tx1 slashes validator 3 and then fails; block == block without it: validator 3 stake %d -> %d, committees %v", o.CurCase(), before, sAlone, cAlone))
+}
+
+// paramCacheCases: family "failed-param-change-then-dependent-tx" (see harness/execdrv/govern.go).
+// For every variant: height 1 is a small block everywhere; at height 2 node A proposes from a mempool
+// holding the governance transaction (which fails after editing the cached parameters, or succeeds
+// inside the dropped oversize remainder) and the dependent transaction; A2 proposes from exactly the
+// transactions A kept; B validates A's block. Block next to the governance transaction == block alone.
+func paramCacheCases(o *drv.Out) {
+	variants := execdrv.ParamVariants
+	rounds := 1
+	if o.Tier == "thorough" || o.Search {
+		rounds = 3
+	}
+	for r := 0; r < rounds; r++ {
+		for vi, v := range variants {
+			paramCacheCase(o, v, 2+(vi+r)%3, int64(100*r+vi))
+		}
+	}
+}
+
+func paramCacheCase(o *drv.Out, v execdrv.ParamVariant, val int, seed int64) {
+	o.Case(fmt.Sprintf("failed-param-change-then-dependent-tx:%s:val%d:%d", v.Name, val, seed))
+	rng := rand.New(rand.NewSource(50 + seed))
+	net := execdrv.ParamNetwork(30+seed, v.Remainder)
+	defer net.Close()
+	c := execdrv.NewChain(o, net, rng, []int{16, 2})
+	c.CanonErrors = true
+	A, A2, B := c.NewNode("A", 0), c.NewNode("A2", 0), c.NewNode("B", 1)
+	// height 1 on every node
+	{
+		h := A.Height()
+		pre := A.StateDigest()
+		p, ok := c.Propose(A, []node.MixTx{{Kind: "send", Bytes: net.SendTx(net.AcctKeys[0], net.FreshAddr(7), 1000, minFee, h, "")}}, "produce")
+		if !ok {
+			return
+		}
+		c.Hold = true
+		okA := c.Validate(A, p)
+		if okA {
+			c.Commit(A, p, false)
+		}
+		o.Op(fmt.Sprintf("def %d %s %s %s %s", h, pre, p.ID, A.StateDigest(), p.Obs), "def")
+		c.Release()
+		if !okA {
+			return
+		}
+		c.Commit(A2, p, false)
+		c.Commit(B, p, false)
+	}
+	h := A.Height()
+	txs, gov := c.ParamMempool(v, h, val, 1000)
+	for _, tx := range txs {
+		if err := A.Submit(tx); err != nil {
+			panic(err)
+		}
+	}
+	pre := A.StateDigest()
+	p, ok := c.Propose(A, nil, "produce")
+	if !ok {
+		return
+	}
+	blk := cloneBlock(p.Block)
+	for _, tx := range blk.Transactions {
+		if bytes.Equal(tx, gov) {
+			o.Fail("C07:harness:param-scenario-not-reached", "the governance transaction was included in the block (it should fail after the edit, or be in the remainder)", map[string]any{"case": o.CurCase()})
+			return
+		}
+	}
+	if !v.Remainder && len(blk.Transactions) != len(txs)-1 {
+		o.Fail("C07:harness:param-scenario-not-reached", fmt.Sprintf("expected every transaction but the governance one in the block: %d of %d", len(blk.Transactions), len(txs)), map[string]any{"case": o.CurCase()})
+		return
+	}
+	c.Hold = true
+	okA := c.Validate(A, p)
+	if okA {
+		c.Commit(A, p, false)
+	}
+	o.Op(fmt.Sprintf("def %d %s %s %s %s", h, pre, p.ID, A.StateDigest(), p.Obs), "def")
+	c.Release()
+	okB := okA && c.Validate(B, p)
+	for _, tx := range blk.Transactions {
+		if err := A2.Submit(tx); err != nil {
+			panic(err)
+		}
+	}
+	pre2 := A2.StateDigest()
+	p2, ok2 := c.Propose(A2, nil, "produce")
+	if !ok2 {
+		return
+	}
+	blk2 := cloneBlock(p2.Block)
+	c.Hold = true
+	if c.Validate(A2, p2) {
+		c.Commit(A2, p2, false)
+	}
+	o.Op(fmt.Sprintf("def %d %s %s %s %s", h, pre2, p2.ID, A2.StateDigest(), p2.Obs), "def")
+	c.Release()
+	var diff []string
+	if !okA || !okB {
+		diff = append(diff, fmt.Sprintf("the block is rejected (proposer accepts: %v, replica accepts: %v)", okA, okB))
+	}
+	if !bytes.Equal(blk.BlockHeader.StateRoot, blk2.BlockHeader.StateRoot) {
+		diff = append(diff, "state root")
+	}
+	if !bytes.Equal(blk.BlockHeader.TransactionRoot, blk2.BlockHeader.TransactionRoot) || len(blk.Transactions) != len(blk2.Transactions) {
+		diff = append(diff, "transaction root")
+	}
+	if !bytes.Equal(blk.BlockHeader.NextValidatorRoot, blk2.BlockHeader.NextValidatorRoot) {
+		diff = append(diff, "validator root")
+	}
+	if okA {
+		if d := node.DiffDumps(A.StateDump(), A2.StateDump()); len(d) != 0 {
+			diff = append(diff, fmt.Sprintf("full state scan (%d keys, first: %s)", len(d), d[0]))
+		}
+		if strings.Join(A.BlockEvents(h), ",") != strings.Join(A2.BlockEvents(h), ",") {
+			diff = append(diff, "events")
+		}
+	}
+	o.Count("metamorphic-compared")
+	o.Count("param-variant:" + v.Name)
+	if len(diff) != 0 {
+		o.Fail("C07:failed-tx-left-trace:param-cache",
+			fmt.Sprintf("height %d: %s, followed by %s on validator %d: the block built next to it differs from the block of its successful transactions alone in: %s", h, v.Describe(), v.Dependent, val, strings.Join(diff, "; ")),
+			map[string]any{"case": o.CurCase(), "height": h, "governance_tx": hex.EncodeToString(gov), "block_next_to_it": hex.EncodeToString(p.Block), "block_alone": hex.EncodeToString(p2.Block)})
+		return
+	}
+	o.Nontrivial(o.CurCase())
+	if seed == 0 {
+		o.Sample(fmt.Sprintf("%s: block == block without the governance transaction (%d txs)", o.CurCase(), len(blk.Transactions)))
+	}
 }
 
 func position(i, n int) string {
